@@ -72,7 +72,9 @@ def graphs(tier):
 def specs(tier):
     """(start, dt as XML, dt value, N)"""
     base = [(0, "<dt>1</dt>", 1.0, 4), (0, "<dt>0.5</dt>", 0.5, 5), (0, "<dt>0.1</dt>", 0.1, 6), (1, "<dt>0.25</dt>", 0.25, 5),
-            (0, '<dt reciprocal="true">4</dt>', 0.25, 5), (0, "<dt>0.2</dt>", 0.2, 6)]
+            (0, '<dt reciprocal="true">4</dt>', 0.25, 5), (0, "<dt>0.2</dt>", 0.2, 6),
+            # start times that are not multiples of dt / have more decimals than dt
+            (0.5, "<dt>1</dt>", 1.0, 4), (0.3, "<dt>0.1</dt>", 0.1, 5), (2.5, "<dt>0.5</dt>", 0.5, 4)]
     if tier == "thorough":
         base += [(0, "<dt>0.125</dt>", 0.125, 8), (0, "<dt>0.05</dt>", 0.05, 10), (0, "<dt>0.04</dt>", 0.04, 10),
                  (1, "<dt>0.1</dt>", 0.1, 10), (0, "<dt>0.025</dt>", 0.025, 10), (0, '<dt reciprocal="true">3</dt>', 1.0 / 3.0, 6),
@@ -81,10 +83,11 @@ def specs(tier):
 
 
 def grid(start, dtv, n, recip=None):
+    fs = Fraction(repr(float(start)))
     if abs(dtv - 1.0 / 3.0) < 1e-12:
-        return [float(Fraction(start) + Fraction(k, 3)) for k in range(n + 1)]
+        return [float(fs + Fraction(k, 3)) for k in range(n + 1)]
     fd = Fraction(repr(dtv))
-    return [float(Fraction(start) + k * fd) for k in range(n + 1)]
+    return [float(fs + k * fd) for k in range(n + 1)]
 
 
 PROBE0 = 2001.125
@@ -105,7 +108,7 @@ def to_stmx(desc, start, stop, dt_xml):
         vs.append(X.aux(name, X.render(inp, st), gf=(xs, [float(i) for i in range(len(ys))])))
     for name, nn, eq in desc["flows"]:
         vs.append(X.flow(name, X.render(eq, st), nn))
-    return X.document("c04", str(start), repr(stop), dt_xml, vs), probes
+    return X.document("c04", repr(start) if isinstance(start, float) else str(start), repr(stop), dt_xml, vs), probes
 
 
 def gf_points(xs, ys):
@@ -443,7 +446,7 @@ def run(tier):
     sp = specs(tier)
     tasks = []
     for gi, (tag, desc) in enumerate(gs):
-        forky = ("if" in tag) or ("gf-of-stock" in tag) or ("min" in tag and "3in" in tag)
+        forky = any(eq[0] == "if" for _, _, eq in desc["flows"]) or any(inp != ("time",) for _, inp, _, _ in desc["gf"])
         for si, spec in enumerate(sp):
             if tier == "quick" and si > 0 and (gi + si) % 3:
                 continue
